@@ -194,7 +194,7 @@ def bootstrap_runs(chk: Check, n, kinds):
         rng.shuffle(variant)
         nrows = len(variant)
         intdata = i % 4 == 0
-        zeros = i % 5 == 3        # a COUNT column, mostly zeros: medians / low quantiles (and many resampled ones) are
+        zeros = i % 5 == 3 and not intdata        # a COUNT column, mostly zeros: medians / low quantiles (and many resampled ones) are
         #                           exactly 0, so relative effects are x/0 = +-inf or 0/0 = nan inside scipy's resampling
         cols = {"variant": variant,
                 "x": (nprng.integers(1, 20, nrows).astype(float) if intdata else
@@ -215,6 +215,8 @@ def bootstrap_runs(chk: Check, n, kinds):
         if zeros:
             skind = "quantile"
         batch = None if i % 3 else rng.choice([1, 7, 33])          # a user-supplied batch size is a setting too
+        if skind == "ratio":
+            batch = None      # (this harness's two-column statistic indexes the last axis: not meaningful for batch = 1)
         common_kw = dict(alternative=alt, confidence_level=cl, n_resamples=nres, method=method, random_state=seed)
         if batch is not None:
             common_kw["batch"] = batch
